@@ -4,6 +4,7 @@ import (
 	"io"
 	"os"
 	"sort"
+	"strings"
 
 	"github.com/relex/gotils/logger"
 	"github.com/relex/gotils/promexporter/promext"
@@ -112,6 +113,15 @@ func (op *chunkOperator) ScanExistingChunks() []base.LogChunk {
 	chunkList := make([]base.LogChunk, 0, len(fnames))
 	for _, fn := range fnames {
 		if fn == idFileName {
+			continue
+		}
+		if strings.HasSuffix(fn, util.TempFileSuffix) && op.matchChunkID(strings.TrimSuffix(fn, util.TempFileSuffix)) {
+			// incomplete chunk file left by a crash in the middle of writing
+			op.logger.Warnf("remove incomplete chunk file id=%s", fn)
+			if uerr := util.UnlinkFileAt(op.maybeDir, fn); uerr != nil {
+				op.metrics.ioErrorsTotal.Inc()
+				op.logger.Errorf("error deleting incomplete chunk file id=%s: %s", fn, uerr.Error())
+			}
 			continue
 		}
 		if !op.matchChunkID(fn) {
